@@ -29,7 +29,14 @@ fn obtain_g<T: FftNum>(case: &Case) -> Result<Arc<dyn Fft<T>>, Outcome> {
                 Some(p) => p,
                 None => return Err(Outcome::skip("planner unavailable")),
             };
-            match catch(|| pl.plan(case.n, case.dir)) {
+            // p[1] = 1: the opposite direction is planned first on the same planner (cache interaction)
+            let both = case.pget(1) == 1;
+            match catch(|| {
+                if both {
+                    let _ = pl.plan(case.n, case.dir.other());
+                }
+                pl.plan(case.n, case.dir)
+            }) {
                 Ok(f) => Ok(f),
                 Err(p) => Err(Outcome::bad(format!("planning n={} for a foreign element type panicked: {} @ {}", case.n, p.msg, p.loc))),
             }
@@ -133,6 +140,9 @@ pub fn k_exact(case: &Case) -> Outcome {
     };
     if fft.len() != n {
         return Outcome::bad(format!("transform reports len()={} for n={}", fft.len(), n));
+    }
+    if Dir::from_fft(fft.fft_direction()) != case.dir {
+        return Outcome::bad(format!("transform reports direction {:?} for requested {:?} (n={})", fft.fft_direction(), case.dir, n));
     }
     let ctor_divs = gfp::divs();
     let inverse = case.dir == Dir::Inv;
@@ -461,4 +471,41 @@ fn alt_newf32(case: &Case) -> Outcome {
         }
     }
     Outcome::held(n >= 2).label(format!("len:{}", crate::gen::classify_len(n))).label("type:f32-newtype")
+}
+
+// ---------------------------------------------------------------------------------------------
+// kind "histscratch" (C05): advertised scratch of every transform returned along a planning history <= 12n+64
+pub fn k_histscratch(case: &Case) -> Outcome {
+    match case.ty {
+        Ty::F32 => histscratch::<f32>(case),
+        Ty::F64 => histscratch::<f64>(case),
+    }
+}
+fn histscratch<T: Real>(case: &Case) -> Outcome {
+    let reqs = match &case.source {
+        Source::History { reqs, .. } => reqs.clone(),
+        _ => return Outcome::skip("not a history case"),
+    };
+    let mut pl = match AnyPlanner::<T>::new(case.planner) {
+        Some(p) => p,
+        None => return Outcome::skip(format!("planner {:?} unavailable in this configuration", case.planner)),
+    };
+    let mut worst = 0.0f64;
+    for (i, r) in reqs.iter().enumerate() {
+        let f = match catch(|| pl.plan(r.n, r.dir)) {
+            Ok(f) => f,
+            Err(p) => return Outcome::bad(format!("request #{} (n={}, {:?}) panicked: {} @ {}", i, r.n, r.dir, p.msg, p.loc)),
+        };
+        let limit = 12 * r.n + 64;
+        for (j, l) in [f.get_inplace_scratch_len(), f.get_outofplace_scratch_len(), f.get_immutable_scratch_len()].iter().enumerate() {
+            if *l > limit {
+                return Outcome::bad(format!(
+                    "advertised {} scratch length {} exceeds 12n+64 = {} for n={} when planned after {:?}",
+                    ["in-place", "out-of-place", "immutable"][j], l, limit, r.n, reqs[..i].iter().map(|q| (q.n, q.dir)).collect::<Vec<_>>()
+                ));
+            }
+            worst = worst.max(*l as f64 / limit as f64);
+        }
+    }
+    Outcome::held(reqs.len() >= 2).ratio(format!("scratch/(12n+64) after history {:?}", case.planner), worst)
 }
